@@ -244,6 +244,7 @@ def run_seq(prop, tier, seed, model=True):
     if replay_results:
         extra_cov['tlc_simulated_behaviours_replayed_into_impl'] = sum(r['behaviours'] for r in replay_results)
         extra_cov['tlc_simulated_steps_replayed'] = sum(r['steps'] for r in replay_results)
+        extra_cov['behaviours_cut_because_a_generation_moved_further_than_in_the_specification'] = sum(r.get('cut_by_generation_magnitude', 0) for r in replay_results)
         if sum(r['steps'] for r in replay_results) == 0:
             raise Machinery('no simulated behaviour was replayed')
         nhist += sum(r['behaviours'] for r in replay_results)
